@@ -354,4 +354,18 @@ theorem stay_in_loop (perm : List Nat) : ∀ (fuel : Nat) (g : G), g.fixed = tru
             rw [this] at hstop; cases hstop
           · exact ih _ rfl (by simp [hst]) hw hpend hstop
 
+theorem loopinv_react (g : G) (a : Action) (hg : Good g) (hp : PInv g) (h : LoopInv g) :
+    LoopInv (react g a).1 := by
+  rw [react_fst]
+  exact loopinv_runJoiner _ _ _ (good_apply g a hg).fixed (linv_apply g a hg.linv)
+    ((pstep_apply g a).pinv hp) (loopinv_apply g a h hp)
+
+theorem loopinv_runAll (g : G) (as : List Action) (hg : Good g) (hp : PInv g) (h : LoopInv g) :
+    LoopInv (runAll g as).1 := by
+  induction as generalizing g with
+  | nil => exact h
+  | cons a as ih =>
+    simp only [runAll]
+    exact ih _ (good_react g a hg) (pinv_react g a hg.linv hp) (loopinv_react g a hg hp h)
+
 end Aiorpcx.C09
